@@ -241,9 +241,15 @@ Section Eval.
         let va := nvalue s l a in let vc := nvalue s l c in
         ustr_eqb (strip (str_val va)) (strip (str_val vc)) || val_eqb va vc
     | BEqEqS a c => ustr_eqb (strip (seval s l a)) (strip (seval s l c))
-    | BBetween e0 a c =>
-        let v := fst (neval s l e0) in let lo := Z.min (fst (neval s l a)) (fst (neval s l c)) in
-        let hi := Z.max (fst (neval s l a)) (fst (neval s l c)) in (lo <? v) && (v <? hi)
+    | BBetween e0 a c =>      (* between(): any side None: no; all three numbers: strictly between as numbers; otherwise strictly between as trimmed text *)
+        let v0 := nvalue s l e0 in let va := nvalue s l a in let vc := nvalue s l c in
+        if is_vnone v0 || is_vnone va || is_vnone vc then false
+        else if floatable v0 && floatable va && floatable vc then
+          let v := fst (neval s l e0) in let lo := Z.min (fst (neval s l a)) (fst (neval s l c)) in
+          let hi := Z.max (fst (neval s l a)) (fst (neval s l c)) in (lo <? v) && (v <? hi)
+        else
+          let t0 := strip (str_val v0) in let ta := strip (str_val va) in let tc := strip (str_val vc) in
+          if str_ltb tc ta then str_ltb tc t0 && str_ltb t0 ta else str_ltb ta t0 && str_ltb t0 tc
     | BExists i | BBare i => match cell l i with Some (_ :: _) => true | _ => false end
     | BEmpty i => match cell l i with Some (_ :: _) => false | _ => true end
     | BIn t opts => existsb (ustr_eqb (seval s l t)) (map strip opts)
